@@ -475,3 +475,76 @@ func layoutOf(d db.KeyValueReader, height uint64) string {
 	}
 	return sb.String()
 }
+
+// layoutDifferential: the repository's own frozen accessors of BOTH layouts (migration/blocktransactions/txlayout):
+// what TransactionLayoutPerTx reads from the pre-migration database must be what TransactionLayoutCombined reads
+// from the migrated one — per block (all transactions, the iterator, all receipts, the whole block), per index
+// (including the first index past the end: both must refuse) and by hash. "Original content" here is what the
+// OLD READERS returned, not what the fixture generator remembers. Returns "" or the first disagreement.
+func layoutDifferential(c chainSpec, pre, post db.KeyValueReader) string {
+	o, n := txlayout.TransactionLayoutPerTx, txlayout.TransactionLayoutCombined
+	encAll := func(xs any, err error) string {
+		if err != nil {
+			return "err:" + errClass(err)
+		}
+		return enc(xs)
+	}
+	for b := uint64(0); !c.NoHeight && b <= c.height(); b++ {
+		t0, e0 := o.TransactionsByBlockNumber(pre, b)
+		t1, e1 := n.TransactionsByBlockNumber(post, b)
+		if len(t0) != len(t1) || errClass(e0) != errClass(e1) {
+			return fmt.Sprintf("block %d TransactionsByBlockNumber: old layout %d txs (%s), combined layout %d txs (%s)", b, len(t0), errClass(e0), len(t1), errClass(e1))
+		}
+		for i := range t0 {
+			if enc(t0[i]) != enc(t1[i]) {
+				return fmt.Sprintf("block %d TransactionsByBlockNumber item %d differs", b, i)
+			}
+		}
+		r0, e0 := o.ReceiptsByBlockNumber(pre, b)
+		r1, e1 := n.ReceiptsByBlockNumber(post, b)
+		if len(r0) != len(r1) || errClass(e0) != errClass(e1) {
+			return fmt.Sprintf("block %d ReceiptsByBlockNumber: old layout %d (%s), combined layout %d (%s)", b, len(r0), errClass(e0), len(r1), errClass(e1))
+		}
+		for i := range r0 {
+			if enc(r0[i]) != enc(r1[i]) {
+				return fmt.Sprintf("block %d ReceiptsByBlockNumber item %d differs", b, i)
+			}
+		}
+		var it0, it1 []string
+		for t, err := range o.TransactionsByBlockNumberIter(pre, b) {
+			it0 = append(it0, encAll(t, err))
+		}
+		for t, err := range n.TransactionsByBlockNumberIter(post, b) {
+			it1 = append(it1, encAll(t, err))
+		}
+		if strings.Join(it0, ",") != strings.Join(it1, ",") {
+			return fmt.Sprintf("block %d TransactionsByBlockNumberIter differs (%d vs %d items)", b, len(it0), len(it1))
+		}
+		b0, e0 := o.BlockByNumber(pre, b)
+		b1, e1 := n.BlockByNumber(post, b)
+		if errClass(e0) != errClass(e1) || (e0 == nil && (enc(b0.Header) != enc(b1.Header) || len(b0.Transactions) != len(b1.Transactions) || len(b0.Receipts) != len(b1.Receipts))) {
+			return fmt.Sprintf("block %d BlockByNumber differs (%s vs %s)", b, errClass(e0), errClass(e1))
+		}
+		for i := 0; i <= len(t0); i++ { // i == len(t0): one past the end
+			x0, e0 := o.TransactionByBlockAndIndex(pre, b, uint64(i))
+			x1, e1 := n.TransactionByBlockAndIndex(post, b, uint64(i))
+			if (e0 == nil) != (e1 == nil) || (e0 == nil && enc(x0) != enc(x1)) {
+				return fmt.Sprintf("TransactionByBlockAndIndex(%d, %d): old layout err=%v, combined layout err=%v", b, i, e0, e1)
+			}
+			y0, e0 := o.ReceiptByBlockAndIndex(pre, b, uint64(i))
+			y1, e1 := n.ReceiptByBlockAndIndex(post, b, uint64(i))
+			if (e0 == nil) != (e1 == nil) || (e0 == nil && enc(y0) != enc(y1)) {
+				return fmt.Sprintf("ReceiptByBlockAndIndex(%d, %d): old layout err=%v, combined layout err=%v", b, i, e0, e1)
+			}
+			if i < len(t0) {
+				hsh := (*felt.TransactionHash)(t0[i].Hash())
+				z0, e0 := o.TransactionByHash(pre, hsh)
+				z1, e1 := n.TransactionByHash(post, hsh)
+				if e0 != nil || e1 != nil || enc(z0) != enc(z1) || enc(z0) != enc(t0[i]) {
+					return fmt.Sprintf("TransactionByHash(block %d idx %d): old layout err=%v, combined layout err=%v", b, i, e0, e1)
+				}
+			}
+		}
+	}
+	return ""
+}
